@@ -516,8 +516,10 @@ func (s *Server) Unlock(passphrase []byte) error {
 
 // Signers returns the available singers from the in-memory certs and underlying agent.
 func (s *Server) Signers() ([]ssh.Signer, error) {
-	s.mu.RLock()
-	defer s.mu.RUnlock()
+	// filter() mutates the certificate tables and talks to the underlying agent,
+	// so the exclusive lock is required.
+	s.mu.Lock()
+	defer s.mu.Unlock()
 
 	if s.locked {
 		return nil, errors.New("agent is locked")
